@@ -606,10 +606,27 @@ def _index_loaded_from(ctx, idx, cobjs, depth=0):
 
 def _two_sided_bound(ctx, node, idx, bobjs):
     """the index (or a local holding it) is compared on both sides: >= 0 and < size(base)"""
+    # the index is the value of a validating helper ( _vec[_checked_pos(*it)] ): the call is evaluated before the subscript, what
+    # its normal completion establishes about its argument holds for the value it hands back
+    extra = []
+    from .ir import _through_identity_helper, atoms_of as _atoms_of
+    call_ = idx.strip_all()
+    while call_.k in ("CXXStaticCastExpr", "CStyleCastExpr", "CXXFunctionalCastExpr") and len(call_.c) == 1:
+        call_ = call_.c[0].strip_all()
+    if call_.k in ("CallExpr", "CXXMemberCallExpr") and call_.callee and call_.callee.get("repo"):
+        inner = _through_identity_helper(call_)
+        if inner is not call_:
+            for (cn, g_, fs) in ctx.fn._checker_calls():
+                if cn.id == call_.id:
+                    for (sub, pol_, fact_) in fs:
+                        for (c2, p2) in _atoms_of(sub, pol_):
+                            extra.append((c2, p2, fact_))
+            if extra:
+                idx = inner
     ids = ctx.index_vars(idx)
     idx_s = idx.strip_all()
     lower = upper = None
-    for (c, pol, fact) in ctx.atomic_facts(node):
+    for (c, pol, fact) in list(ctx.atomic_facts(node)) + extra:
         cmp_ = as_comparison(c)
         if cmp_ is None:
             continue
